@@ -118,6 +118,12 @@ def gen_params(rng, max_hosts=120, allow_alpha1=False, small_bias=True):
         n = rng.randint(3, min(max_hosts, 25))
     else:
         n = rng.randint(3, max_hosts)
+    if rng.random() < 0.08:
+        # boundaries of the host-assignment formula (DMZ / sensitive sizes
+        # change at multiples of 40 / 41, user subnets at multiples of 5)
+        n = rng.choice([x for x in (3, 4, 5, 7, 8, 12, 13, 40, 41, 42, 43,
+                                    80, 81, 82, 83, 84, 120)
+                        if x <= max_hosts] or [n])
     uniform = rng.random() < 0.25
     S = rng.randint(1, 8 if uniform else 12)
     OS = rng.randint(1, 5)
